@@ -1192,7 +1192,7 @@ PROP_MODULES = {
     "C01": [_TMD + "_bipartition", _TMD + "_tree", _DM + "taxonmodel"],
     "C02": [_IO + "newickreader", _IO + "newickwriter", _IO + "nexusreader", _IO + "nexuswriter", _IO + "nexusprocessing", _IO + "nexmlreader", _IO + "nexmlwriter", _IO + "tokenizer", _IO + "nexmlyielder"],
     "C03": [_TMD + "_tree", _TMD + "_node", _TMD + "_edge"],
-    "C04": ["dendropy.calculate.treecompare", _TMD + "_tree", _TMD + "_bipartition"],
+    "C04": ["dendropy.calculate.treecompare", _TMD + "_tree", _TMD + "_bipartition", _DM + "taxonmodel"],
     "C05": [_DM + "treecollectionmodel", "dendropy.calculate.treesum", "dendropy.calculate.statistics"],
     "C06": [_DM + "treecollectionmodel", "dendropy.application.sumtrees"],
     "C07": [_TMD + "_tree", _TMD + "_node", _TMD + "_edge", "dendropy.calculate.phylogeneticdistance"],
